@@ -57,6 +57,10 @@ RULES = {
    "for e.key == nil { .. } is lowered to for T, _ := e.(map[string]any); T[\"key\"] == nil; { .. }: the assertion runs once before the loop, the condition no longer re-reads e on every iteration", "stmt.go forStmt.Then: hoisted statement becomes the loop's init statement"),
   ("KF-C11-3", "any-member-in-case-list-hoisted-after-use", r'^lowered-code-ill-typed/member/case-expr/',
    "case e.key: in an expression switch emits the hoisted assertion into the clause body, after the case expression that uses the temporary: the output does not type-check (undefined / declared and not used)", "stmt.go:500 caseStmt: expressions of the case list are taken before the hoisted statements are placed"),
+  ("KF-C11-4", "inline-closure-arguments-evaluated-in-reverse-order", r'^inline-closure-arguments-evaluated-in-reverse-order$',
+   "an inline closure call binds its arguments to fresh variables last parameter first: with two or more argument expressions they are evaluated right to left (observable when they have side effects); Go evaluates call arguments left to right", "codebuild.go CallInlineClosureStart: for i := n1; i >= 0; i-- emitVar(...) pops the operands from the top of the stack (the repository's expected strings pin this order)"),
+  ("KF-C11-5", "inline-closure-unused-parameter-declared-and-not-used", r'^inline-closure-unused-parameter-declared-and-not-used$',
+   "an inline closure whose body does not use one of its parameters is lowered to a block that declares the bound variable and never uses it: Go rejects the output (declared and not used); the real closure call is valid", "codebuild.go emitVar: var _autoGo_N T = arg without a use"),
  ],
  "C12": [
   ("KF-C12-1", "statement-comments-printed-at-column-zero", r'^comments/not-a-gofmt-fixed-point/comment-indentation$',
